@@ -616,9 +616,11 @@ def _case_steps(case, keep=None):
         asw_eff = asw
     n = len(raw)
     length_ok = (n == len(locs)) or (asw_eff and 1 <= n <= len(locs))
-    if asw_eff and n == 0:
-        raise ValueError("zero-length short write is not part of the generator: %r" % (case,))
     is_writable = writable_row(row)
+    if asw_eff and n == 0 and is_writable:
+        # (an empty short write to a writeable value: nothing states what that should do.  To a value that cannot be
+        # written it is refused like any other data)
+        raise ValueError("zero-length short write to a writeable value is not part of the generator: %r" % (case,))
     must_refuse = not is_writable or not length_ok
     w = M.World(row["bankobj"], case["addr"], case["short"], case["image"], vp["last"], vp["holes"],
                 case["lock"], unlock_value=vp["unlock_value"], no_dtr0_inc=vp["no_dtr0_inc"])
@@ -1311,7 +1313,7 @@ def case_st(draw, wkeys, rokeys):
         mode, v = "raw", None
         asw = draw(st.sampled_from([False, False, True]))
         ln = draw(st.one_of(st.just(w), st.just(w), st.just(w), st.integers(1, w) if asw else st.just(w),
-                            st.integers(0 if not asw else 1, w + 3)))
+                            st.integers(0 if (not asw or not wr) else 1, w + 3)))
         data = list(draw(st.one_of(st.binary(min_size=ln, max_size=ln), st.sampled_from(
             [bytes([0xFF] * ln), bytes([0x55] * ln), bytes([0xAA] * ln), bytes(ln)]))))
     variant = ["standard"]
